@@ -419,12 +419,14 @@ def stage_direct(ctx, pq, w):
         else:
             cmds.append(("run_v2", False, ro, eo, len(rows), [[p, nr] for p, (_, _, _, nr) in zip(mp, pages)]))
         cmds.append(("shred", ro, eo, m_rows(rows, vt)))
+        cmds.append(("split_guard", ro, eo, mp))
         metas.append((ro, eo, rows, cuts, v, pages, vt, max_def))
     outs = pq.batch(cmds)
     conf_budget = {}
     for k, (ro, eo, rows, cuts, v, pages, vt, max_def) in enumerate(metas):
-        m = m_result(outs[2 * k])
-        sh = outs[2 * k + 1]
+        m = m_result(outs[3 * k])
+        sh = outs[3 * k + 1]
+        guard = [bool(int(x)) for x in outs[3 * k + 2]]
         rep, de, vals = NF.shred(rows, ro, eo)
         case = {"stage": "direct-seq", "version": v, "row_opt": ro, "elem_opt": eo, "rows": rows, "cuts": cuts}
         ctx.case(case, trivial=(len(rows) == 1 and not cuts))
@@ -433,6 +435,10 @@ def stage_direct(ctx, pq, w):
                            [[list(map(int, e)) for e in sh[0]], [int(x) for x in sh[1]]],
                            [[[r, d] for r, d in zip(rep, de)], [vt.idx(x) for x in vals]])
         classes = classify_v1_pages([(p[0], p[1]) for p in pages], max_def) if v == 1 else []
+        if v == 1:
+            # the harness classifier of known-bad splits is the complement of the theorem's guard
+            ctx.correspondence("Coq pages_aligned/good_split (hypotheses of C15_pages_partial) ~ harness split classifier", case,
+                               guard, [True, not classes])
         ctx.count("seq.split_class", ",".join(classes) or ("row-boundary" if all(p[0][0] == 0 for p in pages) else "inside-row, non-null continuation"))
         task = {"op": "seq", "mode": "v1" if v == 1 else "v2", "n": len(rows), "guard": len(rep) + 4, "arr": None, "null": ro,
                 "max_defi": max_def,
